@@ -1895,11 +1895,14 @@ func (c *FnCtx) callIsPure1(call *ast.CallExpr, fn *types.Func, ms *modSet, dept
 	if _, ok := externs[fn.FullName()]; ok {
 		return false
 	}
-	if d, ok := c.eng.decls[fn]; ok && d.decl.Body != nil && depth < 3 {
-		// inlined callee: scan its body with its own type information
+	if d, ok := c.eng.decls[fn]; ok && d.decl.Body != nil && depth < 3 && c.pureDepth < 3 {
+		// inlined callee: scan its body with its own type information (bounded nesting: the scan
+		// of a callee's body starts again at depth 0, so the nesting is counted here)
 		saved := c.info
 		c.info = d.pkg.TypesInfo
+		c.pureDepth++
 		sub := c.modified(d.decl.Body)
+		c.pureDepth--
 		c.info = saved
 		for k, v := range sub.elems {
 			ms.elems[k] = v
